@@ -130,3 +130,23 @@ package writer
 //@   ensures_thorough [monotone-unsigned] implies(old(haskey(rangeIndexPtr, key)) && old(rangeIndexPtr[key].NumType) == RNT_UNSIGNED_INT, rangeIndexPtr[key].Min_float64 <= float64(old(rangeIndexPtr[key].Min_uint64)) && rangeIndexPtr[key].Max_float64 >= float64(old(rangeIndexPtr[key].Max_uint64)))
 //@   safe
 //@ end
+
+// ---- per-block timestamp encoding (C01): the offset width chosen from the
+// block's time span never truncates a record's offset, so that
+// lowTs + stored offset == the record's timestamp for every record.
+//@ func (*WipBlock).encodeTimestamps
+//@   props C01
+//@   requires wipBlock != nil && wipBlock.blockSummary.LowTs <= wipBlock.blockSummary.HighTs
+//@   requires int(wipBlock.blockSummary.RecCount) <= len(wipBlock.blockTs)
+//@   requires forall(k, 0, int(wipBlock.blockSummary.RecCount), wipBlock.blockSummary.LowTs <= wipBlock.blockTs[k] && wipBlock.blockTs[k] <= wipBlock.blockSummary.HighTs)
+//@   site call tsWip.cbuf.Append #2:
+//@     assert [ts8-exact] uint64(tsVal) + lowTs == wipBlock.blockTs[i]
+//@   site call tsWip.cbuf.AppendUint16LittleEndian #1:
+//@     assert [ts16-exact] uint64(tsVal) + lowTs == wipBlock.blockTs[i]
+//@   site call tsWip.cbuf.AppendUint32LittleEndian #1:
+//@     assert [ts32-exact] uint64(tsVal) + lowTs == wipBlock.blockTs[i]
+//@   site call tsWip.cbuf.AppendUint64LittleEndian #2:
+//@     assert [ts64-exact] tsVal + lowTs == wipBlock.blockTs[i]
+//@   site call tsWip.cbuf.AppendUint64LittleEndian #1:
+//@     assert [header-lowts] arg1 == wipBlock.blockSummary.LowTs
+//@ end
